@@ -213,7 +213,7 @@ HOLE_REPLAY = {
 
 
 def gen_cases(rng, tier, escalate=False):
-    n = {"quick": 100, "thorough": 2500}[tier] * (3 if escalate else 1)
+    n = {"quick": 100, "thorough": 1500}[tier] * (3 if escalate else 1)
     cases = [history(rng) for _ in range(n)]
     # the size limit: one below, at, and above STREAM_MAX_SIZE (the driver is told how many appends the program attempts)
     totals = [1023, 1024] if tier == "quick" else [1, 31, 32, 33, 1000, 1022, 1023, 1024, 1025, 1056]
@@ -228,9 +228,10 @@ def gen_cases(rng, tier, escalate=False):
 
 def evaluate(pid, cases, result, checks, nontrivial, classify=None, shard_size=120):
     """checks: name -> Coq function case_t -> bool ('model' = correspondence, names starting with 'oracle' = property
-    oracles).  nontrivial(info) -> bool.  classify(index, fails) -> known-finding key or None for an oracle failure."""
+    oracles, names starting with 'aux' are not reported).  nontrivial(info, class) -> bool.
+    classify(index, fails, history_shows_hole) -> known-finding key or None for an oracle failure."""
     if not cases:
-        return
+        return [], set()
     outs = vlib.harness_lines("streams", [json.dumps(c) for c in cases], timeout=1800)
     terms, owner = [], []
     dist = result["distribution"]
@@ -251,10 +252,8 @@ def evaluate(pid, cases, result, checks, nontrivial, classify=None, shard_size=1
         bump("histories quiescent", 1 if o.get("quiescent") else 0)
         bump("runs ending with code 30000 (a returned call result matched no call)", len(o.get("unprocessed_results", [])))
         for e in o.get("run_errors", []):
-            bump("run code %s" % e.get("code"))
-            if not c.get("limit"):
-                # an honest history of these shapes never fails a run: report it rather than ignore it
-                result["errors"].append("run failed in an honest history: %s :: %s" % (json.dumps(e), o.get("script", "")[:600]))
+            if c.get("limit"):
+                bump("run code %s (size limit programs)" % e.get("code"))
         for ti, t in enumerate(o["coq"]):
             terms.append(t)
             owner.append((ci, ti))
@@ -267,10 +266,30 @@ def evaluate(pid, cases, result, checks, nontrivial, classify=None, shard_size=1
                 if len(result["samples"]) < 3 and (ci + ti) % 5 == 0:
                     result["samples"].append({"script": o.get("script"), "info": inf, "term": t[:1500]})
     if not terms:
-        return outs
+        return outs, set()
+    checks = dict(checks)
+    checks.setdefault("auxev", "c13_no_hole_evidence")
     fails, errs = vlib.coq_eval_cases(pid, HEADER, TYPE, checks, terms, shard_size=shard_size)
     result["errors"].extend(errs)
+    # histories in which some run of the folding peer loses an iteration in exactly the shape of the documented
+    # cursor-hole deviation (StreamCases.c13_hole_evidence)
+    tainted = {owner[i][0] for i in fails.get("auxev", [])}
+    bump("histories showing the fold cursor-hole deviation", len(tainted))
+    for ci, o in enumerate(outs):
+        if cases[ci].get("limit") or "coq" not in o:
+            continue
+        for e in o.get("run_errors", []):
+            if ci in tainted:
+                # downstream damage of the lost iteration (a post-fold canon re-executed with another content, the peer's own
+                # signed set changing non-monotonically, ...): other properties' business, counted here
+                bump("run code %s in a history showing the fold cursor deviation" % e.get("code"))
+            else:
+                # an honest history of these shapes never fails a run: report it rather than ignore it
+                bump("run code %s" % e.get("code"))
+                result["errors"].append("run failed in an honest history: %s :: %s :: %s" % (json.dumps(e), o.get("script", "")[:600], json.dumps(cases[ci])[:3000]))
     for name, idxs in fails.items():
+        if name.startswith("aux"):
+            continue
         for i in idxs:
             ci, ti = owner[i]
             entry = {"case": cases[ci], "term": terms[i][:6000], "info": outs[ci]["info"][ti], "script": outs[ci].get("script"), "check": name}
@@ -278,10 +297,10 @@ def evaluate(pid, cases, result, checks, nontrivial, classify=None, shard_size=1
                 entry["what"] = "model/Stream.v (driven by StreamCases.check_case) disagrees with the implementation's observation on this run"
                 result["mismatch"].append(entry)
             elif name.startswith("oracle"):
-                key = classify(i, fails) if classify else None
+                key = classify(i, fails, owner[i][0] in tainted) if classify else None
                 entry["key"] = key
                 entry["what"] = "property oracle %s is false on the implementation's observation" % checks[name]
                 if key:
                     bump("known/" + key)
                 result["oracle_fail"].append(entry)
-    return outs
+    return outs, tainted
